@@ -210,6 +210,39 @@ pub fn run(p: &[String]) -> Vec<String> {
                  hex(&ws.get_merge_cells().first().map(|r| r.get_range()).unwrap_or("-".to_string())),
                  hex(&ws.get_comments().first().map(|c| c.get_coordinate().get_coordinate()).unwrap_or("-".to_string()))]
         }
+        "sheet_settings" => {
+            // op axis p n c1 c2 r1 r2 cf af
+            let mut book = umya_spreadsheet::new_file();
+            let ws = book.get_sheet_by_name_mut("Sheet1").unwrap();
+            ws.get_column_dimension_by_number_mut(&u(&p[5])).set_hidden(true);
+            ws.get_column_dimension_by_number_mut(&u(&p[6])).set_best_fit(true);
+            ws.get_row_dimension_mut(&u(&p[7])).set_hidden(true);
+            ws.get_row_dimension_mut(&u(&p[8])).set_thick_bot(true);
+            let mut rg = umya_spreadsheet::Range::default();
+            rg.set_range(unhex(&p[9]));
+            let mut cf = umya_spreadsheet::ConditionalFormatting::default();
+            cf.get_sequence_of_references_mut().add_range_collection(rg);
+            ws.add_conditional_formatting_collection(cf);
+            ws.set_auto_filter(unhex(&p[10]));
+            let (op, axis, pp, n) = (unhex(&p[1]), unhex(&p[2]), u(&p[3]), u(&p[4]));
+            match (op.as_str(), axis.as_str()) {
+                ("insert", "row") => ws.insert_new_row(&pp, &n),
+                ("insert", "col") => ws.insert_new_column_by_index(&pp, &n),
+                ("remove", "row") => ws.remove_row(&pp, &n),
+                ("remove", "col") => ws.remove_column_by_index(&pp, &n),
+                _ => panic!("bad op"),
+            }
+            let tag = |a: bool, an: &str, b: bool, bn: &str| -> String { let mut t = Vec::new(); if a { t.push(an) } if b { t.push(bn) } t.join("+") };
+            let mut cols: Vec<(u32, String)> = ws.get_column_dimensions().iter().map(|c| (*c.get_col_num(), tag(*c.get_hidden(), "hidden", *c.get_best_fit(), "bestfit"))).collect();
+            cols.sort();
+            let mut rows: Vec<(u32, String)> = ws.get_row_dimensions().iter().map(|r| (*r.get_row_num(), tag(*r.get_hidden(), "hidden", *r.get_thick_bot(), "thickbot"))).collect();
+            rows.sort();
+            let cfs: Vec<String> = ws.get_conditional_formatting_collection().iter().map(|c| c.get_sequence_of_references().get_sqref()).collect();
+            vec![hex(&cols.iter().map(|(k, t)| format!("{}={}", k, t)).collect::<Vec<_>>().join(",")),
+                 hex(&rows.iter().map(|(k, t)| format!("{}={}", k, t)).collect::<Vec<_>>().join(",")),
+                 hex(&if cfs.is_empty() { "-".to_string() } else { cfs.join(";") }),
+                 hex(&ws.get_auto_filter().map(|a| a.get_range().get_range()).unwrap_or("-".to_string()))]
+        }
         "sheet_move" => {
             // is_move ca ra cb rb range dr+100 dc+100
             let mut book = umya_spreadsheet::new_file();
